@@ -71,6 +71,55 @@ macro_rules! one_std {
 
 fn msg_unused() {}
 
+/// The six `From` impls between `Srgb(a)` and `LinSrgb(a)` (any component types): the colour must be the one
+/// `into_linear` / `from_linear` give (bit for bit, same component types), an attached alpha comes out unchanged
+/// (converted as a stimulus when its type changes), a missing one becomes the maximum.
+fn srgb_from_impls(c: &mut Collector, n: &mut u64) {
+    use palette::stimulus::FromStimulus;
+    use palette::{LinSrgb, LinSrgba, Srgb, Srgba};
+    let unit: [f32; 9] = [0.0, 1e-6, 0.0031308, 0.04045, 0.1, 0.5, 0.75, 0.999, 1.0];
+    let bits = |v: [f32; 4]| v.map(|x| x.to_bits());
+    for &r in &unit {
+        for &g in &[0.0f32, 0.3, 1.0] {
+            for &a in &unit {
+                *n += 1;
+                let b = 1.0 - r;
+                let case = |what: &str, obs: Vec<f64>, exp: Vec<f64>| json!({"sub": "assembled", "standard": "Srgb<->LinSrgb From impls", "float": "f32", "what": what, "input": [r, g, b, a], "observed": obs, "expected": exp});
+                let mut judge = |what: &str, got: [f32; 4], want: [f32; 4]| {
+                    if bits(got) != bits(want) {
+                        c.violation(&format!("C01/assembled/From/{}", what), 1.0, || case(what, got.iter().map(|x| *x as f64).collect(), want.iter().map(|x| *x as f64).collect()));
+                    }
+                };
+                let (s, sa) = (Srgb::<f32>::new(r, g, b), Srgba::<f32>::new(r, g, b, a));
+                let (l, la) = (LinSrgb::<f32>::new(r, g, b), LinSrgba::<f32>::new(r, g, b, a));
+                let lin = s.into_linear::<f32>();
+                let enc = Srgb::<f32>::from_linear(l);
+                let x: LinSrgb<f32> = LinSrgb::from(s);
+                judge("LinSrgb::from(Srgb)", [x.red, x.green, x.blue, 1.0], [lin.red, lin.green, lin.blue, 1.0]);
+                let x: LinSrgba<f32> = LinSrgba::from(s);
+                judge("LinSrgba::from(Srgb)", [x.red, x.green, x.blue, x.alpha], [lin.red, lin.green, lin.blue, 1.0]);
+                let x: LinSrgba<f32> = LinSrgba::from(sa);
+                judge("LinSrgba::from(Srgba)", [x.red, x.green, x.blue, x.alpha], [lin.red, lin.green, lin.blue, a]);
+                let x: Srgb<f32> = Srgb::from(l);
+                judge("Srgb::from(LinSrgb)", [x.red, x.green, x.blue, 1.0], [enc.red, enc.green, enc.blue, 1.0]);
+                let x: Srgba<f32> = Srgba::from(l);
+                judge("Srgba::from(LinSrgb)", [x.red, x.green, x.blue, x.alpha], [enc.red, enc.green, enc.blue, 1.0]);
+                let x: Srgba<f32> = Srgba::from(la);
+                judge("Srgba::from(LinSrgba)", [x.red, x.green, x.blue, x.alpha], [enc.red, enc.green, enc.blue, a]);
+                // component type changes on the way: u8 sRGB with alpha -> f32 linear and back
+                let s8 = Srgba::<u8>::new(<u8 as FromStimulus<f32>>::from_stimulus(r), <u8 as FromStimulus<f32>>::from_stimulus(g), 200, <u8 as FromStimulus<f32>>::from_stimulus(a));
+                let want = s8.into_linear::<f32, f32>();
+                let x: LinSrgba<f32> = LinSrgba::from(s8);
+                judge("LinSrgba<f32>::from(Srgba<u8>)", [x.red, x.green, x.blue, x.alpha], [want.red, want.green, want.blue, <f32 as FromStimulus<u8>>::from_stimulus(s8.alpha)]);
+                let back: Srgba<u8> = Srgba::from(x);
+                if (back.red, back.green, back.blue, back.alpha) != (s8.red, s8.green, s8.blue, s8.alpha) {
+                    c.violation("C01/assembled/From/Srgba<u8>->LinSrgba<f32>->Srgba<u8>", 1.0, || case("u8 -> f32 linear -> u8 through the From impls", vec![back.red as f64, back.green as f64, back.blue as f64, back.alpha as f64], vec![s8.red as f64, s8.green as f64, s8.blue as f64, s8.alpha as f64]));
+                }
+            }
+        }
+    }
+}
+
 pub fn run(ctx: &Ctx, total: &mut Collector) {
     let sub = "assembled-standards";
     if !ctx.wants(sub) {
@@ -86,7 +135,8 @@ pub fn run(ctx: &Ctx, total: &mut Collector) {
     one_std!(c, n, "(AdobeRgb,D50,Srgb)", (encoding::AdobeRgb, D50, encoding::Srgb), D50, f64, 4e-6);
     one_std!(c, n, "(Srgb,D50,P3Gamma)", (encoding::Srgb, D50, encoding::P3Gamma), D50, f32, 1e-4);
     one_std!(c, n, "Linear<(DisplayP3,D50)>", Linear<(encoding::DisplayP3, D50)>, D50, f64, 4e-6);
+    srgb_from_impls(&mut c, &mut n);
     c.add(sub, n, 11 * n, 7 * n, n);
     total.merge(c);
-    total.exhaustive(sub, true, "8 assembled RGB standards (Gamma<..>, (Space, Tf), (Primaries, Wp, Tf), Linear<(Primaries, Wp)>; f32 / f64) x the 7^3 unit lattice: cycles through Xyz, the linear RGB of the space, Lab and Hsv; direct vs stepwise to Xyz; alpha form");
+    total.exhaustive(sub, true, "8 assembled RGB standards (Gamma<..>, (Space, Tf), (Primaries, Wp, Tf), Linear<(Primaries, Wp)>; f32 / f64) x the 7^3 unit lattice: cycles through Xyz, the linear RGB of the space, Lab and Hsv; direct vs stepwise to Xyz; alpha form; the six From impls between Srgb(a) and LinSrgb(a) (same and different component types): colour as into_linear / from_linear, alpha unchanged / maximal");
 }
